@@ -121,6 +121,8 @@ class Segment(GeoBody):
         if isinstance(v, Vector):
             self.start_point.move(v)
             self.end_point.move(v)
+            # the cached carrier line has to follow the end points
+            self.line.move(v)
             return Segment(self.start_point, self.end_point)
         else:
             raise NotImplementedError(
